@@ -71,7 +71,7 @@ def judge(ctx):
     ctx.sample = {"spec": spec, "sequences_judged": n_ret}
 
 
-CFG = G.cfg(blocks=("cross", "cross", "multi"))
+CFG = G.cfg(blocks=("cross", "cross", "multi", "repeat", "merge", "nest"))
 P = D.DesignProperty(
     "C01", judge,
     rule=("case = generated design spec in the reference domain; every model of its formula (capped) and every sequence returned by "
